@@ -414,9 +414,11 @@ func Harness_C07_noPersistentWrites() {
 		r.Header.Set("Content-Type", "application/x-www-form-urlencoded")
 		r.Body = io.NopCloser(strings.NewReader(hJSONBody(d)))
 	}
-	// warm-up: lazily initialised tables (header canonicalisation, mime) are filled by a first request
-	srv.ServeHTTP(newHWriter(), &http.Request{Method: "GET", Header: http.Header{"Accept": {"application/json"}}, URL: &url.URL{Path: "/query", RawQuery: "query=%7Bme%7Bid%7D%7D"}, Body: http.NoBody})
+	// the server, its executor and its transports (with their configured header maps) are
+	// configuration: not even the first request may store into them
 	zzsym.Frozen("server", srv)
+	// warm-up: lazily initialised package-level tables (header canonicalisation, mime) are filled by a first request
+	srv.ServeHTTP(newHWriter(), &http.Request{Method: "GET", Header: http.Header{"Accept": {"application/graphql-response+json"}}, URL: &url.URL{Path: "/query", RawQuery: "query=%7Bme%7Bid%7D%7D"}, Body: http.NoBody})
 	zzsym.FrozenGlobals("runtime-globals", "github.com/99designs/gqlgen/graphql", "github.com/vektah/gqlparser/v2")
 	w := newHWriter()
 	srv.ServeHTTP(w, r)
